@@ -154,7 +154,12 @@ class Xunitary(Compiler):
 
         # merge S2gates
         if len(regrefs) > half_n_modes:
-            for mode, indices in list_duplicates(regrefs):
+            # merge one group of S2gates acting on the same pair of modes at a time: removing
+            # and inserting commands shifts the positions of the remaining groups, so these
+            # are looked up again after every merge
+            duplicates = next(list_duplicates(regrefs), None)
+            while duplicates is not None:
+                mode, indices = duplicates
                 r = 0
                 phi = 0
 
@@ -170,6 +175,9 @@ class Xunitary(Compiler):
 
                 i, j = mode
                 B.insert(indices[0], Command(ops.S2gate(r, phi), [registers[i], registers[j]]))
+
+                regrefs = [(cmd.reg[0].ind, cmd.reg[1].ind) for cmd in B]
+                duplicates = next(list_duplicates(regrefs), None)
 
         meas_seq = [C[-1]]
         seq = GaussianUnitary().compile(C[:-1], registers)
